@@ -511,9 +511,12 @@ def search_c11(rng, n, S=None, kinds=None):
             vals[mask] = 0.0
         else:
             vals = rand_vals(rng, mc.gshape(), mode)
+        # the means are homogeneous of degree one: exercise them over many magnitudes (hidden absolute thresholds)
+        mag = 10.0 ** rng.choice([0, 0, -12, -9, -6, 6, 12])
+        vals = vals * mag
         phi = full_cellvar(mc, vals)
         sizes = [np.asarray(getattr(mc.m.cellsize, nm), dtype=float) for nm in ["_x", "_y", "_z"][:mc.dim]]
-        S.sig(kind, tuple(mc.dims), mode)
+        S.sig(kind, tuple(mc.dims), mode, mag)
         for name, fn in fns.items():
             if mode == "mixed" and name in ("harmonic", "geometric"):
                 continue
